@@ -1,22 +1,38 @@
 #!/bin/bash
 # usage: run.sh <ID> [quick|thorough] [extra args]   — builds the check from /repo's current tree and runs it.
 # exit 0 held / 1 VIOLATION / 2 harness problem (build error, vacuous run) — never a VIOLATION line for 2.
+# VERIF_REPO=<dir> (set by hand only, for mutation demonstrations) points the build at a scratch copy of the
+# tree; evidence then goes to .work/<id>/mut-evidence instead of /verif/evidence.
 set -u
 cd "$(dirname "$0")"
 export GOFLAGS=-mod=mod GOPROXY=off GOSUMDB=off GOTOOLCHAIN=local
 ID=$1; TIER=${2:-${VERIF_TIER:-quick}}; shift; shift 2>/dev/null
 id=$(echo "$ID" | tr 'A-Z' 'a-z')
 REPO=/repo
-mkdir -p .work/$id bin evidence
+MODFLAG=""
+BIN=bin/$id
+W=.work/$id
+if [ -n "${VERIF_REPO:-}" ]; then
+  REPO=$(cd "$VERIF_REPO" && pwd)
+  tag=$(echo "$REPO" | tr '/' '_')
+  W=.work/$id/mut$tag
+  mkdir -p $W
+  sed "s#=> /repo\$#=> $REPO#" go.mod > $W/go.mod; cp go.sum $W/go.sum
+  MODFLAG="-modfile=$W/go.mod"
+  BIN=bin/$id-mut$tag
+  export VERIF_EVIDENCE_DIR=$PWD/$W/mut-evidence
+  mkdir -p $VERIF_EVIDENCE_DIR
+fi
+mkdir -p $W bin evidence
 INSTR=""
 if [ -f checks/$id/instr.txt ]; then
   # packages/files to instrument for the controlled scheduler (rewritten from the current tree)
-  go build -o bin/vinstr ./tools/vinstr 2> .work/$id/vinstr.log || { echo "HARNESS-BUILD-ERROR vinstr"; cat .work/$id/vinstr.log; exit 2; }
-  bin/vinstr -repo $REPO -out .work/$id/instr -list checks/$id/instr.txt -json .work/$id/instr.json > .work/$id/vinstr.log 2>&1 || { echo "HARNESS-BUILD-ERROR vinstr run"; cat .work/$id/vinstr.log; exit 2; }
-  INSTR=.work/$id/instr.json
+  go build -trimpath -o bin/vinstr ./tools/vinstr 2> $W/vinstr.log || { echo "HARNESS-BUILD-ERROR vinstr"; cat $W/vinstr.log; exit 2; }
+  bin/vinstr -repo $REPO -out $W/instr -list checks/$id/instr.txt -json $W/instr.json > $W/vinstr.log 2>&1 || { echo "HARNESS-BUILD-ERROR vinstr run"; cat $W/vinstr.log; exit 2; }
+  INSTR=$W/instr.json
 fi
-python3 tools/mkoverlay.py $REPO $INSTR > .work/$id/overlay.json
-if ! go build -tags verif -overlay .work/$id/overlay.json -o bin/$id ./checks/$id 2> .work/$id/build.log; then
-  echo "HARNESS-BUILD-ERROR $ID"; tail -40 .work/$id/build.log; exit 2
+python3 tools/mkoverlay.py $REPO $INSTR > $W/overlay.json
+if ! go build $MODFLAG -trimpath -tags verif -overlay $W/overlay.json -o $BIN ./checks/$id 2> $W/build.log; then
+  echo "HARNESS-BUILD-ERROR $ID"; tail -40 $W/build.log; exit 2
 fi
-exec bin/$id -tier "$TIER" "$@"
+exec $BIN -tier "$TIER" "$@"
